@@ -14,7 +14,7 @@ from core import VERIF, quiet, repo_tree_hash
 
 quiet()
 CACHE = os.path.join(VERIF, ".cache")
-HARNESS_VERSION = "4"
+HARNESS_VERSION = "5"
 
 SPECIALS = [
     # redox pairs that reach the reagent templates, halide losses, ions, heavy elements, markers, peroxides
@@ -30,6 +30,11 @@ SPECIALS = [
     "C[SH2]C>>CSC", "CS(=O)(=O)Cl.CN>>CNS(C)(=O)=O", "C[Mg]Br.CC=O>>CC(C)O", "CC[N+](C)(C)C>>CCN(C)C", "C1.C1>>CC",
     "OC(=O)c1ccccc1>>OCc1ccccc1", "O=Cc1ccccc1>>OCc1ccccc1", "CC#N>>CCN", "CC(=O)N>>CCN", "c1ccccc1[N+](=O)[O-]>>Nc1ccccc1",
     "CCOC(C)=O.[Li+].[OH-]>>CC(=O)[O-]", "COc1ccccc1>>Oc1ccccc1", "CC(C)(C)OC(=O)NCC>>NCC",
+    # placeholder atoms already present in the input, on rows that go to the MCS stage and stay unbalanced (charge):
+    # whatever post-processing does with the placeholders must not leak into a declined row
+    "O=S(=O)(Cl)c1ccc(Br)cc1.[H].[H]>>O=S([O-])c1ccc(Br)cc1", "CCOC(=O)c1ccccc1.[H]>>[O-]Cc1ccccc1",
+    "CC(=O)OCC.[H].[H].[H]>>CC[O-]", "CCCCBr.[O]>>CCCC[O-]", "CC(C)Cl.[O].[O]>>CC(C)[O-]", "CCOC(C)=O.[H].[H]>>CC(=O)[O-]",
+    "c1ccccc1COC(C)=O.[H].[H]>>[O-]Cc1ccccc1", "CCBr.[H]>>CC[NH3+]", "ClCc1ccccc1.[H].[H].[H]>>[O-]Cc1ccccc1",
 ]
 
 
@@ -162,6 +167,14 @@ def monitor_laws(ctx, bt, ans):
             if verdict(after) == "Balance" and verdict(before) != "Balance":
                 ctx.violation("oracle-law-rb-unapplied-balanced", before, "uncompleted rule-based result balances: %s" % after,
                               "rule_based.py water insertion")
+    # carbon counts used by the labels are the true ones (atoms with Z = 6)
+    for r in st.get("v_final", []):
+        for side in r["reaction"].split(">>"):
+            want = chem.carbon_count(side)
+            if want is not None:
+                ctx.count("law:carbon-count-checked")
+                if CheckCarbonBalance.count_atoms(side, "C", {}) != want:
+                    ctx.violation("oracle-law-carbon-count", side, "count_atoms != number of Z=6 atoms", "check_carbon_balance.py:count_atoms")
     for r in st.get("conf", []):
         c = r.get("confidence")
         if c is not None:
